@@ -19,9 +19,11 @@ BUDGET = {"quick": 100000, "thorough": 1000000}
 RULE = (
     "each run draws a generator program {raise before yield | no yield | yield} x handler {none, finally, "
     "swallow, re-raise, raise new, raise new from None, raise same type, return, yield again, raise "
-    "StopAsyncIteration} x afterwards {stop, yield again, raise} with 0..2 suspensions per segment, and "
-    "enumerates all 8 block outcomes {normal, Exception, BaseException, StopIteration, StopAsyncIteration, "
-    "RuntimeError, GeneratorExit, KeyboardInterrupt}; one pair of executions (asyncstdlib / contextlib) per "
+    "StopAsyncIteration / StopIteration, raise its own RuntimeError (plain, or 'from' the caught one), raise an "
+    "equal copy} x afterwards {stop, yield again, raise, raise Stop(Async)Iteration, raise RuntimeError} with "
+    "0..2 suspensions per segment, and enumerates all 10 block outcomes {normal, Exception, BaseException, "
+    "StopIteration, StopAsyncIteration, RuntimeError, GeneratorExit, KeyboardInterrupt, an exception with value "
+    "equality, an exception object that tests false}; one pair of executions (asyncstdlib / contextlib) per "
     "outcome. Oracle: same bound value, same generator event log (resumed or thrown into exactly once), same "
     "outcome class (same object propagates / other exception type+marker / suppressed / RuntimeError); the "
     "documented GeneratorExit rule encoded. Non-trivial: the generator yielded; distinct = distinct "
@@ -39,10 +41,11 @@ PROBES = ("suppressed", "replaced_by_generator", "did_not_yield", "did_not_stop"
 
 PRE = ("yield", "raise", "noyield")
 HANDLERS = ("none", "finally", "swallow", "reraise", "raise_new", "raise_new_from_none", "raise_same_type",
-            "return", "yield_again", "raise_stopasync")
-POST = ("stop", "yield_again", "raise")
+            "return", "yield_again", "raise_stopasync", "raise_runtime", "raise_runtime_from_caught", "raise_equal_copy",
+            "raise_stopiter")
+POST = ("stop", "yield_again", "raise", "raise_stopasync", "raise_stopiter", "raise_runtime")
 OUTCOMES = ("normal", "Exception", "BaseException", "StopIteration", "StopAsyncIteration", "RuntimeError",
-            "GeneratorExit", "KeyboardInterrupt")
+            "GeneratorExit", "KeyboardInterrupt", "EqualException", "FalsyException")
 
 
 class GenError(Exception):
@@ -55,6 +58,28 @@ class BlockBase(BaseException):
     pass
 
 
+class EqualError(Exception):
+    """Exceptions that compare by value, as dataclass-like error types do"""
+
+    def __eq__(self, other):
+        return type(other) is type(self) and other.args == self.args
+
+    def __hash__(self):
+        return hash(self.args)
+
+
+class FalsyError(Exception):
+    """An exception object that tests false (it has a length, say): an exception all the same"""
+
+    def __len__(self):
+        return 0
+
+
+def marked(exc, marker):
+    exc.marker = marker
+    return exc
+
+
 class Prep:
     pass
 
@@ -63,7 +88,7 @@ def prepare(ch):
     prep = Prep()
     prep.pre = PRE[ch.weighted([8, 1, 1])]
     prep.handler = HANDLERS[ch.draw(len(HANDLERS))]
-    prep.post = POST[ch.weighted([4, 1, 1])]
+    prep.post = POST[ch.weighted([8, 2, 2, 1, 1, 1])]
     prep.susp = [ch.draw(3) for _ in range(5)]
     prep.interrupt = ch.draw(4)
     # the generator function is called with keyword arguments too, some with names the machinery uses itself
@@ -125,12 +150,31 @@ def make_genfunc(prep, sim, log, injected):
                     yield "again"
                 elif h == "raise_stopasync":
                     raise StopAsyncIteration("from generator")
+                elif h == "raise_stopiter":
+                    raise StopIteration("from generator")
+                elif h == "raise_runtime":
+                    # a RuntimeError of the generator's own, raised while handling (context, not cause)
+                    raise marked(RuntimeError("generator's own"), "own_runtime")
+                elif h == "raise_runtime_from_caught":
+                    raise marked(RuntimeError("generator's own"), "own_runtime_from") from err
+                elif h == "raise_equal_copy":
+                    try:
+                        new = type(err)(*err.args)
+                    except Exception:
+                        new = GenError("copy")
+                    raise marked(new, "copy")
         log.append(("after",))
         await pause(susp[2])
         if prep.post == "yield_again":
             yield "again2"
         elif prep.post == "raise":
             raise GenError("post")
+        elif prep.post == "raise_stopasync":
+            raise StopAsyncIteration("post")
+        elif prep.post == "raise_stopiter":
+            raise StopIteration("post")
+        elif prep.post == "raise_runtime":
+            raise marked(RuntimeError("post"), "post_runtime")
 
     return genfunc
 
@@ -150,6 +194,10 @@ def make_exc(outcome):
         return RuntimeError("block")
     if outcome == "GeneratorExit":
         return GeneratorExit("block")
+    if outcome == "EqualException":
+        return EqualError("block")
+    if outcome == "FalsyException":
+        return FalsyError("block")
     return KeyboardInterrupt("block")
 
 
